@@ -107,6 +107,7 @@ func init() {
 		f.writerClosed = true
 		return nil
 	}
+	st[V+"KeepOpen"] = func(fr *frame, args []value) value { return nil }
 	st[V+"Quiesce"] = func(fr *frame, args []value) value {
 		p := fr.i.p
 		me := p.cur
